@@ -219,10 +219,13 @@ def make_register(kind, w):
     raise ValueError(kind)
 
 
-def make_dev(kind, w):
+def make_dev(kind, w, program=None):
     import dataclasses
 
     import pulser
+
+    if kind == "custom-physical" and program == "eom":  # a physical device whose Rydberg channel has an EOM
+        return dataclasses.replace(pulser.AnalogDevice, name="CustomAD", max_atom_num=60)
 
     if kind == "virtual":
         return w.device
@@ -254,7 +257,7 @@ def build_program(name, active, chosen, regkind, devkind, mode, assign=None, idk
     mapping = None
     if isinstance(reg, tuple):
         reg, mapping = reg
-    dev = make_dev(devkind, w)
+    dev = make_dev(devkind, w, name)
     seq = Sequence(reg, dev)
     V = c08.Vals(mode, chosen, assign or {}, seq)
     fn(seq, V, Styles(active), w)
@@ -322,6 +325,7 @@ def cases(tier):
                 ch = ((0, c08.pick(kinds, 0, pos[0][0], pos[0][1], 0)),)
                 out.append((name, (), ch, "2d", "virtual", idk))
                 out.append((name, (), ch, "mappable", "virtual", idk))
+    out += [("shared",) + c[1:] for c in c08.pair_cases(tier)]
     # de-duplicate
     seen = set()
     uniq = []
@@ -362,7 +366,67 @@ def norm(s):
     return s.key(ordered_channels=False)
 
 
+
+def run_shared(what, i, j):
+    """Round trip of a template whose two arguments are different expressions over the SAME operands (C08's pair programs)."""
+    from pulser import Pulse, Sequence
+
+    w = World(WSPEC)
+    out = []
+    with warnings.catch_warnings():
+        warnings.simplefilter("ignore")
+        tmpl = w.fresh(apply_prefix=False)
+        a = tmpl.declare_variable("a", dtype=float)
+        t = tmpl.declare_variable("t", dtype=int)
+        tmpl.declare_channel("g", "rydberg_global")
+        try:
+            for k in (i, j):
+                if what == "expr":
+                    tmpl.add(Pulse.ConstantPulse(t, 1.0, c08.PAIR_EXPRS[k][1](a, 2.0), 0.0), "g")
+                else:
+                    tmpl.add(Pulse.ConstantDetuning(c08._pair_wf(c08.PAIR_WFS[k], t, a), 0.0, 0.0), "g")
+        except Exception as e:
+            return [("@program-not-constructible", type(e).__name__)]
+        names = (c08.PAIR_EXPRS[i][0], c08.PAIR_EXPRS[j][0]) if what == "expr" else (c08.PAIR_WFS[i], c08.PAIR_WFS[j])
+        for codec in ("abstract", "legacy"):
+            try:
+                doc = tmpl.to_abstract_repr() if codec == "abstract" else tmpl._serialize()
+            except Exception as e:
+                if "No abstract representation for" in str(e):
+                    return [("@expression-not-exportable", str(e)[:60])]
+                out.append((f"C04:encode-raises:{codec}:shared:{type(e).__name__}", f"{names}: {e}"[:200]))
+                continue
+            if codec == "abstract":
+                err = own_validate(json.loads(doc))
+                if err:
+                    out.append(("C04:schema-invalid:shared", f"{names}: {err}"))
+            try:
+                dec = Sequence.from_abstract_repr(doc) if codec == "abstract" else Sequence._deserialize(doc)
+            except Exception as e:
+                out.append((f"C04:decode-raises:{codec}:shared:{type(e).__name__}", f"{names}: {e}"[:200]))
+                continue
+            for av, tv in ((1.5, 100), (0.75, 200)):
+                try:
+                    b1 = tmpl.build(a=av, t=tv)
+                except Exception:
+                    continue
+                try:
+                    b2 = dec.build(a=av, t=tv)
+                except Exception as e:
+                    out.append((f"C04:decoded-build-raises:{codec}:shared:{type(e).__name__}", f"{names}: {e}"[:200]))
+                    continue
+                if norm(snapshot.snap(b1, False)) != norm(snapshot.snap(b2, False)):
+                    out.append((f"C04:decoded-build-differs:{codec}:shared:{what}", f"arguments {names[0]} then {names[1]} over the same operands, a={av}, t={tv}"))
+    return out + [("@roundtrip", "")]
+
+
 def run_case(case):
+    if case[0] == "shared":
+        return run_shared(case[1], case[2], case[3])
+    return run_case_prog(case)
+
+
+def run_case_prog(case):
     from pulser import Sequence
 
     name, active, chosen_t, regkind, devkind = case[:5]
@@ -492,6 +556,9 @@ def run(tier, seed):
             if fp.startswith("@"):
                 classes[fp] = classes.get(fp, 0) + 1
             else:
+                if c[0] == "shared":
+                    res.add(Violation(fp, d, {"engine": "progx", "case": list(c)}, size=0))
+                    continue
                 res.add(Violation(fp, d, {"engine": "progx", "case": [c[0], list(c[1]), [list(x) for x in c[2]], c[3], c[4]] + list(c[5:])},
                                   size=len(c[1]) + len(c[2])))
     res.coverage = dict(
@@ -511,5 +578,7 @@ def run(tier, seed):
 
 def replay(payload):
     c = payload["case"]
+    if c[0] == "shared":
+        return [Violation(fp, d, payload) for fp, d in run_case(tuple(c)) if not fp.startswith("@")]
     case = (c[0], tuple(c[1]), tuple((int(p), k) for p, k in c[2]), c[3], c[4]) + tuple(c[5:])
     return [Violation(fp, d, payload) for fp, d in run_case(case) if not fp.startswith("@")]
